@@ -91,6 +91,14 @@ func phoutField(s *netsample.Sample, idx int) string {
 func runCase(c string) string {
 	f := strings.Split(c, " ")
 	switch f[0] {
+	case "http":
+		return runHTTP(f)
+	case "hscen":
+		return runHScen(f)
+	case "gshoot":
+		return runGShoot(f)
+	case "gscen":
+		return runGScen(f)
 	case "grpc":
 		code, _ := strconv.ParseUint(f[1], 10, 32)
 		var err error
@@ -215,6 +223,7 @@ func gen(r *vh.Rand, tier string) []string {
 	for i := 0; i < n/30+1; i++ {
 		out = append(out, fmt.Sprintf("ids 0 %d %d", r.Range(1, 16), r.Range(0, 400)))
 	}
+	out = append(out, genGuns(r, tier)...)
 	return out
 }
 
